@@ -122,12 +122,18 @@ def parse_output(c):
         return c.rows
     if c.outtext is None:
         return None
-    if c.fmt.startswith("fa"):
-        return gen.parse_fasta(c.outtext)
-    if c.fmt.startswith("clu"):
-        return gen.parse_clustal(c.outtext)[0]
-    if c.fmt.startswith("msf"):
-        return gen.parse_msf(c.outtext)[0]
+    # an output the independent parser cannot read is a result like any other (it will differ from every expectation); it must never take
+    # the check machinery down
+    try:
+        if c.fmt.startswith("fa"):
+            return gen.parse_fasta(c.outtext)
+        if c.fmt.startswith("clu"):
+            return gen.parse_clustal(c.outtext)[0]
+        if c.fmt.startswith("msf"):
+            return gen.parse_msf(c.outtext)[0]
+    except Exception as ex:
+        c.parse_error = str(ex)
+        return [("<output of case %d not parseable as %s: %s>" % (c.id, c.fmt, str(ex)[:200]), "")]
     return None
 
 
